@@ -1,6 +1,8 @@
 //! `hv <property> <tier> <seed> <cases-file> <stats-file>`: run the real Humphrey code on generated
 //! cases and write one line per case (`fn<TAB>args...<TAB>impl-output`) for the Lean driver.
 mod common;
+mod c13;
+mod c08;
 mod c15;
 mod c10;
 mod c16;
@@ -22,6 +24,8 @@ fn exec(prop: &str, f: &[String]) -> Option<String> {
         "C16" => c16::exec(f),
         "C10" => c10::exec(f),
         "C15" => c15::exec(f),
+        "C08" => c08::exec(f),
+        "C13" => c13::exec(f),
         _ => None,
     }
 }
@@ -30,6 +34,11 @@ fn main() {
     let args: Vec<String> = std::env::args().collect();
     if args.len() == 2 && args[1] == "tables" {
         print!("{}", tables::render());
+        return;
+    }
+    if args.len() == 2 && args[1] == "__c08child" {
+        // private sub-command: one child process per batch of pool scripts (see c08.rs)
+        c08::child();
         return;
     }
     if args.len() < 6 {
@@ -69,6 +78,8 @@ fn main() {
         "C16" => c16::gen(&mut out, thorough, seed),
         "C10" => c10::gen(&mut out, thorough, seed),
         "C15" => c15::gen(&mut out, thorough, seed),
+        "C08" => c08::gen(&mut out, thorough, seed),
+        "C13" => c13::gen(&mut out, thorough, seed),
         other => {
             eprintln!("unknown property {}", other);
             std::process::exit(2);
